@@ -3,7 +3,7 @@
     ranked/ranked, ranked/missing, missing/missing (re-enumerating the pairs is allowed because the
     penalty of a pair is symmetric for valid schemes); the last two classes are counted along the buckets of
     the candidate, the first along the buckets of the input ranking (run-length walk + merge sort). *)
-From Corankco Require Import Prelude Scheme Rank KemenySpec CostTableProof OptTheory KemenyMerge KemenyImpl.
+From Corankco Require Import Prelude Scheme Rank KemenySpec CostTableProof OptTheory KemenyMerge KemenyImpl KemenyProof.
 From Coq Require Import Sorting.Sorted.
 Local Open Scope Z_scope.
 
@@ -732,4 +732,47 @@ Proof.
   destruct Msl as (m & Em). rewrite Em.
   eexists. split; [reflexivity|]. unfold dot. cbn [n11 n12 n13 n14 n15 n20 n23 n25].
   rewrite Spec, RRval_counts, (RMval_N s r), (MMval_N s r). fold ll. ring.
+Qed.
+
+(** * the whole dataset *)
+Lemma sum_costs_correct s c D :
+  b0 s = 0 -> t2 s = 0 -> t0 s = t1 s -> t3 s = t4 s -> NoDup (elems c) ->
+  (forall r, In r D -> NoDup (elems r) /\ incl (elems r) (elems c)) ->
+  sum_costs s c D = Some (kemeny_spec s D c).
+Proof.
+  intros Hb0 Ht2 Ht01 Ht34 Nc. induction D as [|r D IH]; intros H; [reflexivity|].
+  cbn [sum_costs]. destruct (H r (or_introl eq_refl)) as [Nr Hin].
+  destruct (cost_by_ranking_correct s c r Hb0 Ht2 Ht01 Ht34 Nc Nr Hin) as (k & Ek & Ed).
+  rewrite Ek, IH by (intros r' Hr'; apply H; right; exact Hr').
+  unfold kemeny_spec. cbn [map]. rewrite zsum_cons, Ed. reflexivity.
+Qed.
+
+(** The model of [KemenyComputingPairwise.get_kemeny_score] returns exactly the generalized Kemeny
+    score of the definition: for every scheme that satisfies the documented relations, every candidate
+    without repeated element, every dataset of rankings without repeated element whose elements all
+    appear in the candidate. *)
+Theorem get_kemeny_score_correct s D c :
+  relations s -> NoDup (elems c) ->
+  (forall r, In r D -> NoDup (elems r)) ->
+  (forall r x, In r D -> ranked r x -> ranked c x) ->
+  get_kemeny_score s D c = Ok (kemeny_spec s D c).
+Proof.
+  intros (Hb0 & _ & _ & Ht01 & Ht2 & Ht34) Nc Nd Hc. unfold get_kemeny_score.
+  destruct (complete_towards c D) eqn:E.
+  - rewrite (sum_costs_correct s c D Hb0 Ht2 Ht01 Ht34 Nc); [reflexivity|].
+    intros r Hr. split; [apply Nd; exact Hr|]. intros x Hx. apply (Hc r x Hr Hx).
+  - apply complete_towards_spec in Hc. congruence.
+Qed.
+
+(** total characterisation: score of the definition, or the documented refusal *)
+Theorem get_kemeny_score_total s D c :
+  relations s -> NoDup (elems c) -> (forall r, In r D -> NoDup (elems r)) ->
+  (get_kemeny_score s D c = Ok (kemeny_spec s D c) /\ forall r x, In r D -> ranked r x -> ranked c x) \/
+  (get_kemeny_score s D c = Err InvalidRankings /\ exists r x, In r D /\ ranked r x /\ ~ ranked c x).
+Proof.
+  intros Hs Nc Nd. destruct (complete_towards c D) eqn:E.
+  - left. pose proof (proj1 (complete_towards_spec c D) E) as Hc. split; [|exact Hc].
+    apply get_kemeny_score_correct; assumption.
+  - right. assert (G : get_kemeny_score s D c = Err InvalidRankings) by (unfold get_kemeny_score; rewrite E; reflexivity).
+    split; [exact G|]. apply kemeny_refuses_only_then in G. exact G.
 Qed.
